@@ -78,6 +78,9 @@ public:
 	std::string phase = "random";
 	bool replaying = false;
 	bool feedAll = false; // enumerators that shard by themselves: feed() takes every tape
+	// Bytes put in front of the tape of every recorded failure: how this process was prepared before its
+	// first case (Harness::init), so that the replay in a fresh process starts from the same state
+	std::vector<uint8_t> tapePrefix;
 	size_t sampleLimit = 6;
 
 	void cls(const std::string& c, uint64_t n = 1) { classes[c] += n; }
@@ -123,7 +126,8 @@ public:
 		}
 		candidate.signature = sig;
 		candidate.detail = detailJson;
-		candidate.tape.assign(curTape, curTape + curTapeLen);
+		candidate.tape = replaying ? std::vector<uint8_t>() : tapePrefix;
+		candidate.tape.insert(candidate.tape.end(), curTape, curTape + curTapeLen);
 		candidate.phase = phase;
 		haveCandidate = true;
 		return FAIL;
@@ -140,6 +144,8 @@ struct Harness {
 	long thoroughCases;
 	// optional: extra text for the evidence "rule"
 	const char* rule;
+	// optional: prepares the process before its first case (not when replaying); may set run.tapePrefix
+	void (*init)(Run&);
 };
 
 namespace detail {
@@ -174,7 +180,13 @@ namespace detail {
 		run.evaluations++;
 		run.curTape = p;
 		run.curTapeLen = n;
-		writeCurrent(c, p, n);
+		if (run.tapePrefix.empty() || run.replaying)
+			writeCurrent(c, p, n);
+		else {
+			std::vector<uint8_t> full = run.tapePrefix;
+			full.insert(full.end(), p, p + n);
+			writeCurrent(c, full.data(), full.size());
+		}
 		Tape t(p, n);
 		Verdict v = c->h->prop(t, run);
 		if (v == DISCARD)
@@ -326,6 +338,8 @@ inline int harnessMain(int argc, char** argv, const Harness& h) {
 
 	std::string curPath = args.outdir + "/current_" + std::to_string(args.shard) + ".tape";
 	ctx.curFd = open(curPath.c_str(), O_CREAT | O_RDWR | O_TRUNC, 0644);
+	if (h.init)
+		h.init(run);
 
 	// ---- deterministic phase (enumerated tapes), sharded by index
 	uint64_t detCount = 0;
@@ -441,6 +455,8 @@ inline int harnessMain(int argc, char** argv, const Harness& h) {
 	st->ctx.run = &run;
 	std::string curPath = args.outdir + "/current_" + std::to_string(args.shard) + ".tape";
 	st->ctx.curFd = open(curPath.c_str(), O_CREAT | O_RDWR | O_TRUNC, 0644);
+	if (h.init)
+		h.init(run);
 	// starting corpus: this shard's share of the enumerated tapes (at most ~400), unevaluated
 	if (!args.fuzzSeeds.empty() && h.deterministic) {
 		uint64_t idx = 0, mine = 0;
